@@ -8,8 +8,10 @@ ENTRY = CODE + 0x800
 WIN = DATA + 0x700          # 256-byte data window
 ESP0 = DATA + 0x780
 REGS = ['eax', 'ecx', 'edx', 'ebx', 'esp', 'ebp', 'esi', 'edi']
-REC = struct.Struct('<16sI8II512s256s')
-RES = struct.Struct('<I8III512s256s')
+REC = struct.Struct('<16sI8II512s256s3I')
+RES = struct.Struct('<I8III512s256s5I')
+USER_DS, USER_CS = 0x2b, 0x23          # flat 32-bit user segments of a compat process (selftest checks them)
+SEG_DEFAULT = {'es': USER_DS, 'fs': USER_DS, 'gs': USER_DS}
 FLAGBITS = {'cf': 0, 'pf': 2, 'af': 4, 'zf': 6, 'nf': 7, 'df': 10, 'of': 11}
 STATUS_MASK = sum(1 << b for b in FLAGBITS.values())
 SIGTRAP, SIGSEGV, SIGFPE, SIGILL, SIGBUS = 5, 11, 8, 4, 7
@@ -44,7 +46,8 @@ def run_batch(records):
     for r in records:
         regs = [r['regs'].get(n, 0) & 0xffffffff for n in REGS]
         buf += REC.pack(r['code'].ljust(16, b'\xcc'), len(r['code']), *regs, r.get('eflags', 0x202) & 0xffffffff,
-                        r.get('fx') or dfx, r.get('mem', bytes(256)).ljust(256, b'\0')[:256])
+                        r.get('fx') or dfx, r.get('mem', bytes(256)).ljust(256, b'\0')[:256],
+                        *[(r.get('segs') or SEG_DEFAULT).get(n, USER_DS) & 0xffff for n in ('es', 'fs', 'gs')])
     p = subprocess.run([RUNNER], input=bytes(buf), stdout=subprocess.PIPE, stderr=subprocess.PIPE)
     out = p.stdout
     if len(out) != RES.size * len(records):
@@ -52,7 +55,8 @@ def run_batch(records):
     res = []
     for i in range(len(records)):
         f = RES.unpack_from(out, i * RES.size)
-        res.append({'sig': f[0], 'regs': dict(zip(REGS, f[1:9])), 'eip': f[9], 'eflags': f[10], 'fx': f[11], 'mem': f[12]})
+        res.append({'sig': f[0], 'regs': dict(zip(REGS, f[1:9])), 'eip': f[9], 'eflags': f[10], 'fx': f[11], 'mem': f[12],
+                    'segs': dict(zip(('gs', 'fs', 'es', 'ds', 'ss'), f[13:18]))})
     return res
 
 
@@ -68,6 +72,8 @@ def selftest():
     t.append(dict(code=bytes.fromhex('7402'), regs=dict(base), eflags=0x202 | 0x40))                         # je +2 (taken)
     t.append(dict(code=bytes.fromhex('7402'), regs=dict(base), eflags=0x202))                                # je +2 (not taken)
     t.append(dict(code=bytes.fromhex('d9e8'), regs=dict(base), eflags=0x202))                                # fld1
+    t.append(dict(code=bytes.fromhex('8cc0'), regs=dict(base), eflags=0x202, segs={'es': USER_CS, 'fs': USER_DS, 'gs': USER_DS ^ 1}))   # mov eax, es
+    t.append(dict(code=bytes.fromhex('c407'), regs=dict(base, edi=WIN + 16), eflags=0x202, mem=bytes(16) + bytes.fromhex('78563412' '2a00') + bytes(8)))  # les eax,[edi]
     r = run_batch(t)
     assert r[0]['sig'] == SIGTRAP and r[0]['regs']['eax'] == 0x80000000 and r[0]['eip'] == ENTRY + 3, r[0]
     assert (r[0]['eflags'] & STATUS_MASK) == (1 << 11 | 1 << 7 | 1 << 4 | 1 << 2), hex(r[0]['eflags'])
@@ -76,6 +82,9 @@ def selftest():
     assert r[3]['regs']['esp'] == ESP0 - 4 and r[3]['mem'][0x7c:0x80] == bytes.fromhex('bebafeca'), (hex(r[3]['regs']['esp']), r[3]['mem'][0x78:0x84])
     assert r[4]['eip'] == ENTRY + 2 + 2 + 1 and r[5]['eip'] == ENTRY + 2 + 1, (hex(r[4]['eip']), hex(r[5]['eip']))
     assert r[6]['fx'][32:42] == bytes.fromhex('0000000000000080ff3f'), r[6]['fx'][:48].hex()
+    assert r[7]['sig'] == SIGTRAP and r[7]['regs']['eax'] & 0xffff == USER_CS and r[7]['segs'] == {'gs': USER_DS ^ 1, 'fs': USER_DS, 'es': USER_CS, 'ds': USER_DS, 'ss': USER_DS}, r[7]
+    assert r[8]['sig'] == SIGTRAP and r[8]['regs']['eax'] == 0x12345678 and r[8]['segs']['es'] == 0x2a, r[8]
+    assert r[0]['segs'] == {'gs': USER_DS, 'fs': USER_DS, 'es': USER_DS, 'ds': USER_DS, 'ss': USER_DS}, r[0]['segs']
     r2 = run_batch(t)
     assert [(x['sig'], x['regs'], x['eip'], x['eflags'] & STATUS_MASK, x['mem']) for x in r] == [(x['sig'], x['regs'], x['eip'], x['eflags'] & STATUS_MASK, x['mem']) for x in r2], 'native runner is not deterministic'
     return True
